@@ -9,6 +9,8 @@ Decided (structure of options.c):
   N1  the letter cursor never passes the terminator of its argument (lone '-', last letter of a bundle)
   M5  argv compaction: writes argv[j] only with j <= i < argc and terminates the vector
 Not decided: final variable values, ordering, the word-count agreement of argument lists."""
+import re
+
 from .. import facts, expr as X, nulcursor, nullness, flow, loopstate
 from ..facts import walk
 from ..report import Check, canon
@@ -19,6 +21,7 @@ NORETURN = {"libast_fatal_error"}
 def in_should_parse(f, node):
     """node is controlled by the pass test: in the then-arm of if (SHOULD_PARSE(..)), or after an
     `if (!SHOULD_PARSE(..)) return ...;` earlier in an enclosing block"""
+    _CUR_F[0] = f
     child = node
     for anc in f.ancestors(node):
         if anc.get("k") == "if":
@@ -68,8 +71,73 @@ def value_store(n, aliases=()):
     return False
 
 
-def is_sp(cond):
+_SP_LOCALS = {}
+
+
+def sp_locals(f):
+    """locals that hold the value of the pass test (const spif_bool_t this_pass = SHOULD_PARSE(n) ? TRUE : FALSE;)"""
+    if f.name not in _SP_LOCALS:
+        res = set()
+        for d, v in f.vardecls.items():
+            if v.get("init") is not None and raw_sp(v["init"]):
+                res.add(d)
+        for n in walk(f.body):
+            if n.get("k") == "assign" and n.get("op") == "=":
+                l = X.strip(n["ch"][0])
+                if l.get("k") == "ref" and l.get("rk") == "local" and raw_sp(n["ch"][1]):
+                    res.add(l["d"])
+        # a local that is assigned anything else as well does not stand for the pass test
+        for n in walk(f.body):
+            if n.get("k") == "assign":
+                l = X.strip(n["ch"][0])
+                if l.get("k") == "ref" and l.get("d") in res and not raw_sp(n["ch"][1]):
+                    res.discard(l["d"])
+        _SP_LOCALS[f.name] = res
+    return _SP_LOCALS[f.name]
+
+
+def raw_sp(cond):
     return any(m.endswith(":SHOULD_PARSE") for x in walk(cond) for m in x.get("m", []))
+
+
+_CUR_F = [None]
+
+
+def is_sp(cond):
+    """the condition is the pass test: the SHOULD_PARSE expansion itself or a local holding its value"""
+    if raw_sp(cond):
+        return True
+    f = _CUR_F[0]
+    if f is not None:
+        sl = sp_locals(f)
+        c = X.strip(cond)
+        while c is not None and c.get("k") == "un" and c.get("op") == "!":
+            c = X.strip(c["ch"][0])
+        return c is not None and c.get("k") == "ref" and c.get("d") in sl
+    return False
+
+
+def mask_locals(f):
+    """locals holding the option's mask (bits = SPIFOPT_OPT_MASK(n))"""
+    res = set()
+    for d, v in f.vardecls.items():
+        if v.get("init") is not None and any(x.get("k") == "member" and x.get("n") == "mask" for x in walk(v["init"])):
+            res.add(d)
+    for n in walk(f.body):
+        if n.get("k") == "assign" and n.get("op") == "=":
+            l = X.strip(n["ch"][0])
+            if l.get("k") == "ref" and l.get("rk") == "local" and any(x.get("k") == "member" and x.get("n") == "mask" for x in walk(n["ch"][1])):
+                res.add(l["d"])
+    return res
+
+
+def is_mask_expr(e, ml):
+    s_ = X.strip(e)
+    if s_ is None:
+        return False
+    if s_.get("k") == "member" and s_.get("n") == "mask":
+        return True
+    return s_.get("k") == "ref" and s_.get("d") in ml
 
 
 def always_returns(stmt):
@@ -91,8 +159,8 @@ def run(tier="quick"):
                 explanation="mask-only stores, pass-test control of every target store / handler call, loop-progress must-dataflow, "
                             "letter-cursor typestate, argv compaction shape")
     for rid, txt in (("M1", "boolean handler only ORs / AND-NOTs its mask"), ("M2", "target stores and handler calls are under SHOULD_PARSE"),
-                     ("M3", "every way round the main loop advances"), ("M6", "per-word state (long/equal flags, value pointer) does not survive an iteration"), ("N1", "letter cursor never passes the terminator"),
-                     ("M5", "argv compaction stays inside argv and terminates it")):
+                     ("M3", "every way round the main loop advances"), ("M6", "per-word state (long/equal flags, value pointer) does not survive an iteration"), ("N1", "letter cursor never passes the terminator"), ("N2", "a word removed from argv is not read again before the index moves on"),
+                     ("M5", "argv compaction stays inside argv and terminates it"), ("B1", "the argument-list handler writes only inside the list it allocated")):
         chk.rule(rid, txt)
     prog = facts.extract(only=["options.c"])
     u = prog.units["options.c"]
@@ -101,16 +169,26 @@ def run(tier="quick"):
     # M1
     n1 = 0
     hb_al = value_aliases(hb)
+    ml = mask_locals(hb)
     for n in walk(hb.body):
         if value_store(n, hb_al):
             n1 += 1
             op = n.get("op")
             rhs = X.strip(n["ch"][1])
-            mask_in = any(x.get("k") == "member" and x.get("n") == "mask" for x in walk(n["ch"][1]))
-            ok = (op == "|=" and mask_in and rhs.get("k") != "un") or (op == "&=" and mask_in and rhs.get("k") == "un" and rhs.get("op") == "~")
+            inv = rhs.get("k") == "un" and rhs.get("op") == "~"
+            ok = (op == "|=" and is_mask_expr(rhs, ml)) or (op == "&=" and inv and is_mask_expr(rhs["ch"][0], ml))
             chk.ob("M1", hb.name, "mask-store:" + canon(hb, n)[:40], ok, loc=hb.loc(n),
                    detail="handle_boolean stores %s: a boolean option must only set (|= mask) or clear (&= ~mask) its own mask bits" % X.render(n)[:70],
                    proof="|= mask / &= ~mask")
+            if op == "&=" and inv:
+                # ~mask is computed in the type of the mask; if that is unsigned and narrower than the target, the conversion
+                # zero-extends and the AND clears every target bit above the mask's width
+                lw, mw, msigned = X.strip(n["ch"][0]).get("tw"), rhs.get("tw"), rhs.get("ts")
+                wide_ok = not (lw and mw and mw < lw and not msigned)
+                chk.ob("M1", hb.name, "clear-width:" + canon(hb, n)[:40], wide_ok, loc=hb.loc(n),
+                       detail="handle_boolean clears with %s: ~mask is a %s-bit unsigned value but the target is %s bits wide, so the "
+                              "AND also clears target bits %s..%s, which belong to other options" % (X.render(n)[:60], mw, lw, mw, (lw or 0) - 1),
+                       proof="the complement is taken at the width of the target")
     # M2
     n2 = 0
     callers = {}
@@ -139,17 +217,41 @@ def run(tier="quick"):
                           "handler is run in the wrong pass" % (f.name, "stores through the option's value pointer" if is_store else "calls the option's handler"),
                    proof=how)
     # M3 loop progress
-    idx_i = parse.params and None
+    # the main loop: the outermost loop of spifopt_parse that looks options up; its cursors: the integer compared with argc in the
+    # loop condition and the character pointer that is assigned from argv[..]
+    argc_d = parse.params[0]["d"]
+    argv_d = parse.params[1]["d"]
+    loops = [n for n in walk(parse.body) if n.get("k") in ("for", "while")]
+    lookups = [lp for lp in loops if any(re.search(r"find_(long|short)_option$", X.callee_name(c) or "") for c in X.calls_in(lp.get("body") or {}))]
+    main = None
+    for lp in lookups:
+        if not any(lp is not o and any(y is lp for y in walk(o.get("body") or {})) for o in lookups):
+            main = lp
     i_d = o_d = None
-    for d, v in parse.vardecls.items():
-        if v["n"] == "i":
-            i_d = d
-        if v["n"] == "opt":
-            o_d = d
-    loops = [n for n in walk(parse.body) if n.get("k") == "for"]
-    if i_d is None or o_d is None or not loops:
-        raise facts.AnalysisBroken("main loop / cursor of spifopt_parse not identified")
-    main = loops[0]
+    if main is not None and main.get("cond") is not None:
+        for x in walk(main["cond"]):
+            if x.get("k") == "bin" and x.get("op") in ("<", "<=", ">", ">=", "!="):
+                a, b = X.strip(x["ch"][0]), X.strip(x["ch"][1])
+                for p, q in ((a, b), (b, a)):
+                    if q.get("k") == "ref" and q.get("d") == argc_d and p.get("k") == "ref" and p.get("rk") == "local":
+                        i_d = p["d"]
+        cands = {}
+        for x in walk(parse.body):
+            pairs = []
+            if x.get("k") == "assign" and x.get("op") == "=":
+                pairs.append((X.strip(x["ch"][0]), x["ch"][1]))
+            if x.get("k") == "decl":
+                for dcl in x.get("decls", ()):
+                    if dcl.get("init") is not None:
+                        pairs.append(({"k": "ref", "d": dcl["d"], "rk": "local", "tp": dcl.get("tp")}, dcl["init"]))
+            for l, r in pairs:
+                r = X.strip(r)
+                if l.get("k") == "ref" and l.get("rk") == "local" and r is not None and r.get("k") == "index" and X.strip(r["ch"][0]).get("d") == argv_d:
+                    cands[l["d"]] = cands.get(l["d"], 0) + 1
+        if cands:
+            o_d = max(cands, key=lambda d: cands[d])
+    if i_d is None or o_d is None or main is None:
+        raise facts.AnalysisBroken("main loop / cursors of spifopt_parse not identified")
     cfg = nullness.prepared_cfg(parse, NORETURN)
     body_ids = {x["i"] for x in walk(main["body"])}
     cond_ids = {x["i"] for x in walk(main["cond"])} if main.get("cond") is not None else set()
@@ -211,40 +313,137 @@ def run(tier="quick"):
                   "parsed again forever (termination then depends on the bad-option counter)",
            proof="every path back to the loop condition passes i++ / opt++ / opt = argv[i]")
     # M6 every argument word is read on its own: only the loop header's cursors survive an iteration
-    loopstate.check_item_loop(chk, "M6", parse, main, "argument word")
+    loopstate.check_item_loop(chk, "M6", parse, main, "argument word", cursors=(i_d, o_d))
     # N1 letter cursor
     viol, nchecked = nulcursor.analyse(parse, {o_d}, entry_safe=0)
     for n, kind, msg in viol:
         chk.ob("N1", parse.name, "%s:%s" % (kind, canon(parse, n)[:40]), False, loc=parse.loc(n), detail="spifopt_parse: %s" % msg)
     if not viol:
         chk.ob("N1", parse.name, "cursor", True, loc=parse.loc(parse.body), proof="%d cursor reads/advances covered by non-NUL tests" % nchecked)
-    # M5 compaction
-    comp = loops[-1] if len(loops) > 1 else None
-    ok5 = False
-    why = "compaction loop not found"
-    if comp is not None:
-        stores = [n for n in walk(comp["body"]) if n.get("k") == "assign" and X.strip(n["ch"][0]).get("k") == "index"]
-        j_d = None
-        for d, v in parse.vardecls.items():
-            if v["n"] == "j":
-                j_d = d
-        # argv[j] = argv[i] under if (argv[i]); j++ only there; loop bound i < argc; both start at 1
-        good = len(stores) == 1
-        if good:
-            s0 = stores[0]
-            li = X.strip(X.strip(s0["ch"][0])["ch"][1])
-            ri = X.strip(s0["ch"][1])
-            good = li.get("d") == j_d and ri.get("k") == "index" and X.strip(ri["ch"][1]).get("d") == i_d
-        c = X.strip(comp["cond"]) if comp.get("cond") is not None else {}
-        bound_ok = c.get("k") == "bin" and c.get("op") == "<" and X.strip(c["ch"][0]).get("d") == i_d and X.strip(c["ch"][1]).get("rk") == "param"
-        incs = [n for n in walk(comp["body"]) if n.get("k") == "un" and n.get("op") == "++" and X.strip(n["ch"][0]).get("d") == j_d]
-        guarded = all(any(a.get("k") == "if" for a in parse.ancestors(n) if a["i"] in {x["i"] for x in walk(comp["body"])}) for n in incs + stores)
-        term = [n for n in walk(parse.body) if n.get("k") == "assign" and X.is_null_const(n["ch"][1]) and X.strip(n["ch"][0]).get("k") == "index"
-                and X.strip(X.strip(n["ch"][0])["ch"][1]).get("d") == j_d and cfg.node_dominates(comp["cond"]["i"], n["i"])]
-        ok5 = good and bound_ok and guarded and len(incs) == 1 and bool(term)
-        why = "store argv[j] = argv[i]: %s; bound i < argc: %s; j advanced only with a kept word: %s; argv[j] = NULL afterwards: %s" % (good, bound_ok, guarded and len(incs) == 1, bool(term))
-    chk.ob("M5", parse.name, "argv-compaction", ok5, loc=parse.loc(comp) if comp else parse.loc(parse.body),
-           detail="spifopt_parse: argv compaction does not have the shape that keeps j <= i < argc and NULL-terminates (%s)" % why, proof=why)
+    # M5 compaction: wherever a function copies argv[b] to argv[a] (the compaction of kept words), GHOSTPOS proves
+    # 0 <= a <= b < argc at the copy, and that the terminating store argv[a] = NULL has a <= argc
+    from ..ghostpos import GhostPos
+    from ..lin import Lin, entails
+    n5 = 0
+    for f in u.functions.values():
+        avs = [p for p in f.params if p.get("tp") and re.search(r"char \*\*|char \*\[\]|char \*const \*", (p.get("tc") or "") + (p.get("t") or ""))]
+        acs = [p for p in f.params if not p.get("tp") and p.get("tw") and (p.get("tc") or p.get("t") or "").strip() == "int"]
+        if not avs or not acs:
+            continue
+        copies = []
+        for x in walk(f.body):
+            if x.get("k") == "assign" and x.get("op") == "=":
+                l, r = X.strip(x["ch"][0]), X.strip(x["ch"][1])
+                if l.get("k") == "index" and X.strip(l["ch"][0]).get("d") == avs[0]["d"] and r.get("k") == "index" and X.strip(r["ch"][0]).get("d") == avs[0]["d"]:
+                    copies.append(x)
+        if not copies:
+            continue
+        g = GhostPos(f, prog, self_index=None)
+        from ..ghostpos import entry_from_callers
+        ctx = entry_from_callers(f, u, lambda h: GhostPos(h, prog, self_index=None))
+        g.run(list(ctx) if ctx is not None else [Lin.sym("v%d" % acs[0]["d"])])
+        AC = Lin.sym("v%d" % acs[0]["d"])
+        copy_loops = [lp for lp in walk(f.body) if lp.get("k") in ("for", "while") and any(any(y is c for y in walk(lp.get("body") or {})) for c in copies)]
+
+        def v5(st, x, blk, f=f, g=g):
+            if x.get("k") == "assign" and x.get("op") == "=":
+                l, r = X.strip(x["ch"][0]), X.strip(x["ch"][1])
+                if l.get("k") != "index" or X.strip(l["ch"][0]).get("d") != avs[0]["d"]:
+                    return
+                a_ = g.lin(l["ch"][1])
+                if any(x is c for c in copies):
+                    b_ = g.lin(r["ch"][1])
+                    ok = a_ is not None and b_ is not None and entails(list(st), a_) and entails(list(st), b_ - a_) and entails(list(st), AC - 1 - b_)
+                    chk.ob("M5", f.name, "compaction-copy:" + canon(f, x)[:40], ok, loc=f.loc(x),
+                           detail="%s copies %s where 0 <= destination <= source < argc is not provable (state: %s): a kept word would be "
+                                  "written past its own position or outside argv" % (f.name, X.render(x)[:50], " & ".join(sorted("%r>=0" % c for c in st))[:200]),
+                           proof="0 <= a <= b <= argc-1 entailed")
+                elif X.is_null_const(x["ch"][1]) and copy_loops and not any(any(y is x for y in walk(lp)) for lp in copy_loops):
+                    # the terminator written after the compaction
+                    if any(cfg5.node_dominates(lp["cond"]["i"], x["i"]) for lp in copy_loops if lp.get("cond") is not None):
+                        ok = a_ is not None and entails(list(st), a_) and entails(list(st), AC - a_)
+                        chk.ob("M5", f.name, "compaction-terminator:" + canon(f, x)[:40], ok, loc=f.loc(x),
+                               detail="%s terminates the compacted vector at an index not provably within 0..argc (state: %s)" % (
+                                   f.name, " & ".join(sorted("%r>=0" % c for c in st))[:200]), proof="0 <= index <= argc entailed")
+        cfg5 = nullness.prepared_cfg(f, NORETURN)
+        before = len(chk.obls)
+        g.visit(v5)
+        n5 += len(chk.obls) - before
+    chk.count("compaction_obligations", n5, floor=2)
+    # N2 a removed word is not read again: after `argv[i] = NULL` (argument removal) and until the index moves on, no callee that is
+    # handed (i, argv) may read argv[i] as a string.  Callee side: GHOSTPOS decides whether an argv[E] read with E == i is feasible.
+    def reads_current_word(h, argv_j, idx_j):
+        gh = GhostPos(h, prog, self_index=None)
+        gh.run()
+        I_ = Lin.sym("v%d" % h.params[idx_j]["d"])
+        av_d = h.params[argv_j]["d"]
+        hits = []
+
+        def vr(st, x, blk):
+            if x.get("k") == "index" and X.strip(x["ch"][0]).get("d") == av_d:
+                par = h.parent.get(x["i"])
+                while par is not None and par.get("k") in ("paren", "icast", "cast"):
+                    nxt_ = h.parent.get(par["i"])
+                    if par.get("k") in ("icast", "cast") and par.get("ck") != "LValueToRValue" and nxt_ is not None and nxt_.get("k") == "assign" and nxt_["ch"][0] is par:
+                        break
+                    par = nxt_
+                if par is not None and par.get("k") == "assign" and X.strip(par["ch"][0]) is x:
+                    return          # a store into the slot, not a read
+                e = gh.lin(x["ch"][1])
+                if e is not None and gh.compatible(st, [e - I_, I_ - e]):
+                    hits.append(x)
+        gh.visit(vr)
+        return hits
+    cleared_calls = []
+
+    def tr2(state, x, blk):
+        if x.get("k") == "assign" and x.get("op") == "=":
+            l = X.strip(x["ch"][0])
+            if l.get("k") == "index" and X.strip(l["ch"][0]).get("d") == argv_d and X.strip(l["ch"][1]).get("d") == i_d and X.is_null_const(x["ch"][1]):
+                return state | {"cleared"}
+            if l.get("k") == "ref" and l.get("d") == i_d:
+                return state - {"cleared"}
+        if x.get("k") == "assign" and X.strip(x["ch"][0]).get("d") == i_d:
+            return state - {"cleared"}
+        if x.get("k") == "un" and x.get("op") in ("++", "--") and X.strip(x["ch"][0]).get("d") == i_d:
+            return state - {"cleared"}
+        return state
+
+    def vis2(state, x, blk):
+        if x.get("k") == "call" and "cleared" in state:
+            h = u.functions.get(X.callee_name(x) or "")
+            if h is None or h.cfg is None:
+                return
+            args = x["ch"][1:]
+            aj = [j for j, a in enumerate(args) if X.strip(a).get("d") == argv_d]
+            ij = [j for j, a in enumerate(args) if X.strip(a).get("d") == i_d]
+            if aj and ij and aj[0] < len(h.params) and ij[0] < len(h.params):
+                cleared_calls.append((x, h, aj[0], ij[0]))
+    flow.forward(cfg, frozenset(), tr2, join=lambda a, b: a | b, visit=vis2)
+    n_n2 = 0
+    for x, h, aj, ij in cleared_calls:
+        n_n2 += 1
+        hits = reads_current_word(h, aj, ij)
+        chk.ob("N2", parse.name, "removed-word-not-reread:" + h.name, not hits, loc=h.loc(hits[0]) if hits else parse.loc(x),
+               detail="spifopt_parse calls %s (%s) on a path where argv[i] has been set to NULL by argument removal and the index has not "
+                      "moved, and %s reads %s, which can be that very slot, as a string: NULL dereference (-xVALUE spelling with "
+                      "removal enabled)" % (h.name, parse.loc(x), h.name, X.render(hits[0])[:30] if hits else ""),
+               proof="no argv[E] read with E == i is feasible in %s" % h.name)
+    chk.count("calls_after_word_removal", n_n2, floor=1)
+    # B1 argument-list handler: every store into the word list it allocates is within the allocation (CAP, strict: a bound that
+    # cannot be established is reported), and what it hands to the string functions is a string
+    from ..cap import Cap
+    from ..capcheck import run_cap
+
+    class LocalCap(Cap):
+        def no_inline(self, fn):
+            return fn.unit is not self.cur_fn.unit or Cap.no_inline(self, fn)
+    al_fns = [f for f in u.functions.values() if f.cfg is not None and any(
+        X.callee_name(c) in ("malloc", "spifmem_malloc") for c in X.calls_in(f.body)) and any(
+        p.get("tp") and re.search(r"char \*\*|char \*\[\]", (p.get("tc") or "") + (p.get("t") or "")) for p in f.params)]
+    nb, nund, samples = run_cap(chk, prog, al_fns, rule="B1", noreturn=NORETURN, strict=True,
+                                cap_factory=lambda p_: LocalCap(p_, noreturn=NORETURN), kinds={"upper", "lower", "count"})
+    chk.count("list_building_functions", nb, floor=1)
     chk.count("boolean_value_stores", n1, floor=2)
     chk.count("target_stores_and_handler_calls", n2, floor=5)
     chk.count("cursor_events", nchecked, floor=6)
